@@ -180,7 +180,7 @@ def _wf_payload(cmd, p):
 
 
 def wellformed(verb, a):
-    if verb in ("ping", "expect", "reqblock", "close", "pong"):
+    if verb in ("ping", "expect", "reqblock", "close", "pong", "wait", "polltx"):
         return True
     if verb == "msg":
         if any(k in a for k in ("len", "ck", "magic", "cut")):
@@ -209,7 +209,7 @@ def monitor_c13(script):
         op = brv.op_part(line)
         verb, a = _kv(op)
         o, raw, _ = _obs(line)
-        if raw in ("dead", "bad-op") or "crash" in raw:
+        if raw in ("dead", "bad-op", "ok") or "crash" in raw:
             if "crash" in raw:
                 return hits
             continue
@@ -283,7 +283,7 @@ def monitor_c14(script, cap=HANDSHAKE_CAP_FALLBACK):
         op = brv.op_part(line)
         verb, a = _kv(op)
         o, raw, _ = _obs(line)
-        if raw in ("dead", "bad-op"):
+        if raw in ("dead", "bad-op", "ok"):
             continue
         if not wellformed(verb, a):
             return hits  # outside the quantifier from here on
